@@ -13,7 +13,11 @@ PROP = dict(
                floors={"array_set": 5000, "buffer_set": 5000, "array_insert": 5000, "buffer_cut": 5000, "array_slice": 5000,
                        "array_reserve": 5000, "state:shared": 20000, "monitor:init-failures-injected": 2000,
                        "monitor:fini-calls": 100000, "monitor:conservation-checks": 100000,
-                       "monitor:metaref-checks": 10000, "monitor:arrarr-checks": 10000})],
+                       "monitor:metaref-checks": 10000, "monitor:arrarr-checks": 10000}),
+          dict(name="c05_cxx", src=["c05_cxx.cpp"], libs=["mpt++", "mptio", "mptplot", "mptcore"], batch=512, lsan=True,
+               floors={"typed_array_insert": 5000, "typed_array_resize": 5000, "typed_array_trim": 3000, "typed_array_skip": 3000,
+                       "unique_array_insert": 2000, "refarray_insert": 5000, "monitor:refarray-checks": 50000,
+                       "monitor:destructor-calls": 50000, "state:shared": 5000})],
     rule=("case = one PRNG history of 8..60 (quick) / 8..100 (thorough) typed-buffer operations over 3 handles (a third of the histories with "
           "injected constructor failures), or one history on an array of metatype references, or one on an array of arrays; "
           "non-trivial = >= 2 mutating operations ran while a buffer was shared (element histories), every built-in history; "
